@@ -153,7 +153,7 @@ def phase_c(mod_names: List[str], key: str, index: int, name: str):
         return {"status": "unknown", "detail": "regenerated VC list differs"}
     vc = vcs[index]
     goal = z3.BoolVal(False) if vc.formula is False else vc.formula
-    for (mb, ms) in ((False, 40000), (True, 80000)):
+    for (mb, ms) in ((False, 20000), (True, 40000)):  # (reseeded retries in phase B took over most of this stage's job)
         r, dt, _, _ = z3_check(S, vc.pc, goal, ms, mbqi=mb)
         if r == "unsat":
             return {"status": "unsat", "backend": "z3(solo%s)" % ("" if mb else ",e-matching"), "seconds": dt, "detail": "solo retry: unsat"}
